@@ -6,7 +6,7 @@ from collections import Counter
 
 from ..gen.ledger import Opts, gen_ledger
 from ..probe import probe
-from ..util import rng_for, sha, iso, d as pdate, tax_year_of, ZERO
+from ..util import cap_viols, rng_for, sha, iso, d as pdate, tax_year_of, ZERO
 from . import ledger_core as lc
 
 PROP = "C07"
@@ -62,7 +62,7 @@ def run_dates(desc):
             if "ok" in o:
                 viols.append({"clause": "out-of-range-accepted", "signature": "out-of-range-accepted",
                               "detail": f"{x} -> {o}", "case": {"op": "tax_period", "dates": [iso(x)]}})
-    return {"evaluations": len(dates), "nontrivial_hashes": hashes, "counters": cnt, "violations": viols[:20],
+    return {"evaluations": len(dates), "nontrivial_hashes": hashes, "counters": cnt, "violations": cap_viols(viols),
             "samples": [{"date": iso(dates[0]), "observed": obs[0]}] if desc["part"] == 0 else []}
 
 
@@ -183,7 +183,7 @@ def run_boundaries(desc):
         check_slices(txs, obs[0], dict(zip(filters, obs[1:])), cnt, viols)
         if len(samples) < 1 and "ok" in obs[0]:
             samples.append({"Y": Y, "ledger": lc.brief(txs, 12), "disposal_years": got})
-    return {"evaluations": len(Ys) * 4, "nontrivial_hashes": hashes, "counters": cnt, "violations": viols[:20],
+    return {"evaluations": len(Ys) * 4, "nontrivial_hashes": hashes, "counters": cnt, "violations": cap_viols(viols),
             "samples": samples}
 
 
@@ -212,7 +212,7 @@ def run_random(desc):
             hashes.add(sha(txs)[:16])
             cnt["reports_with_%d_years" % min(6, len(obs[0]["ok"]["report"]["tax_years"]))] += 1
         check_slices(txs, obs[0], dict(zip(filters, obs[1:])), cnt, viols)
-    return {"evaluations": n_eval, "nontrivial_hashes": hashes, "counters": cnt, "violations": viols[:20], "samples": []}
+    return {"evaluations": n_eval, "nontrivial_hashes": hashes, "counters": cnt, "violations": cap_viols(viols), "samples": []}
 
 
 def judge_embedded(txs, filters, cnt, viols, hashes):
@@ -289,7 +289,7 @@ def run_embedded(desc):
         if len(filters) > 6:
             filters = sorted(rng.sample(filters, 6))
         n_eval += judge_embedded(txs, filters, cnt, viols, hashes)
-    return {"evaluations": n_eval, "nontrivial_hashes": hashes, "counters": cnt, "violations": viols[:20], "samples": []}
+    return {"evaluations": n_eval, "nontrivial_hashes": hashes, "counters": cnt, "violations": cap_viols(viols), "samples": []}
 
 
 def run_mcp(desc):
@@ -337,7 +337,7 @@ def run_mcp(desc):
                           "detail": f"{d_} (tax year {ty}): {json.dumps(a)[:200]}", "case": {"op": "mcp-request", "request": r}})
         else:
             cnt["mcp_boundary_disposals_explained"] += 1
-    return {"evaluations": len(reqs), "nontrivial_hashes": hashes, "counters": cnt, "violations": viols[:20], "samples": []}
+    return {"evaluations": len(reqs), "nontrivial_hashes": hashes, "counters": cnt, "violations": cap_viols(viols), "samples": []}
 
 
 def run_shard(desc):
